@@ -8,6 +8,7 @@ import ChalkModel.Wire
 import ChalkModel.Eval
 import ChalkModel.Contract
 import ChalkModel.Compat
+import ChalkModel.AutoTraits
 
 namespace Chalk.Sem
 open Chalk Chalk.Sexp
@@ -108,12 +109,39 @@ def Judgement.toSexp : Judgement → Sexp
   | .rejected _ c w => .list [.atom "rejected", .atom c, .list (w.map tmToSexp)]
   | .inconclusive why => .list [.atom "inconclusive", .atom why]
 
+def strList? : Sexp → Option (List String)
+  | .list xs => xs.mapM fun | .atom s => some s | _ => none
+  | _ => none
+
+/-- `(auto-data (adts (name n (fields..))..) (leaves ..) (tuples (name n)..) (impls clause..)
+      (provided (tr name)..) (autotraits ..) (cotraits ..))` -/
+def autoDataOfSexp? : Sexp → Option AutoData
+  | .list [.atom "auto-data", .list adts, leaves, .list tuples, .list impls, .list provided, autos, cos] => do
+      let adts ← adts.mapM fun
+        | .list [.atom name, n, fs] => do some (⟨name, ← n.nat?, ← tmListOfSexp? fs⟩ : AdtDecl)
+        | _ => none
+      let tuples ← tuples.mapM fun
+        | .list [.atom name, n] => do some (name, ← n.nat?)
+        | _ => none
+      let provided ← provided.mapM fun
+        | .list [.atom tr, .atom name] => some (tr, name)
+        | _ => none
+      some { adts := adts, leaves := ← strList? leaves, tuples := tuples, impls := ← impls.mapM clauseOfSexp?,
+             provided := provided, autoTraits := ← strList? autos, coTraits := ← strList? cos }
+  | _ => none
+
 def opsSem : Sexp → Option Sexp
   | .list [.atom "decide", p, g, fuel] => do
       some (.list [.atom "ok", (evalGoal (← programOfSexp? p) (← fuel.nat?) [] (← goalOfSexp? g)).toSexp])
   | .list [.atom "judge-ground", p, g, fuel, ans] => do
       let v := evalGoal (← programOfSexp? p) (← fuel.nat?) [] (← goalOfSexp? g)
       some (judgeGround v (groundAnswerOfSexp ans))
+  | .list [.atom "judge-ground-auto", d, g, fuel, ans, .atom ctx] => do
+      let v := evalGoal (autoProgram (← autoDataOfSexp? d)) (← fuel.nat?) [] (← goalOfSexp? g)
+      -- `ctx` (which solver, fresh or reused instance) only refines the classifier of a rejection
+      some (match judgeGround v (groundAnswerOfSexp ans) with
+        | .list [.atom "rejected", .atom c, d] => .list [.atom "rejected", .atom (c ++ "@" ++ ctx), d]
+        | r => r)
   | .list [.atom "compatible", a, b] =>
       let (x, y) := (answerOfSexp a, answerOfSexp b)
       some (if compatible x y then .list [.atom "accepted", .atom "compatible"]
